@@ -98,6 +98,7 @@ InitState(cfg) ==
      cx |-> NoCx,                 \* connect exchange (connectTransaction)
      cid |-> "", ka |-> 0,
      reg |-> {},                  \* registeredTopics: set of [id, n]
+     pendreg |-> {},              \* pendingRegistrations: [id, n] of REGISTERs sent and not yet acknowledged
      handed |-> {},               \* ghost: every [id, n] ever handed to the client
      nxt |-> cfg.tidmin + cfg.skiptids, exhausted |-> FALSE,
      cknow |-> {},                \* ghost: [tit, id, n] the client can resolve
@@ -146,6 +147,7 @@ AfterAlloc(s, id) == [s EXCEPT !.nxt = id + 1]
 NoAlloc(s) == [s EXCEPT !.exhausted = TRUE]
 
 RegIds(s, n) == {r.id : r \in {x \in s.reg : x.n = n}}
+PendIds(s, n) == {r.id : r \in {x \in s.pendreg : x.n = n}}
 RegName(s, id) == LET m == {r \in s.reg : r.id = id} IN
                   IF m = {} THEN "?none" ELSE (CHOOSE r \in m : TRUE).n
 Pick(S, hint) == IF hint \in S THEN hint ELSE SetMin(S)
@@ -335,9 +337,11 @@ DoBPublish(s, m, h) ==
     ELSE IF RegIds(s, m.topic) # {} THEN track(s, mk(0, Pick(RegIds(s, m.topic), h.tid)))
     ELSE IF PredefIds(s.cfg, s.cid, m.topic) # {} THEN
          track(s, mk(1, Pick(PredefIds(s.cfg, s.cid, m.topic), h.tid)))
-    ELSE IF ~CanAlloc(s) THEN Die(NoAlloc(s), "topic-ids-exhausted")
-    ELSE LET id == AllocId(s, h)
-             s1 == AfterAlloc(s, id)
+    ELSE IF PendIds(s, m.topic) = {} /\ ~CanAlloc(s) THEN Die(NoAlloc(s), "topic-ids-exhausted")
+    ELSE LET \* a topic that is being registered already keeps its ID (bursts on a new topic)
+             fresh == PendIds(s, m.topic) = {}
+             id == IF fresh THEN AllocId(s, h) ELSE SetMin(PendIds(s, m.topic))
+             s1 == IF fresh THEN [AfterAlloc(s, id) EXCEPT !.pendreg = @ \cup {[id |-> id, n |-> m.topic]}] ELSE s
              mid == IF m.qos = 0 THEN PickMid(s, h.mid) ELSE m.mid
              pub == mk(0, id)
              rg  == SnRegister(id, mid, m.topic)
@@ -363,6 +367,7 @@ DoCRegack(s, p) ==
          IF x.phase # "regack" THEN s
          ELSE IF p.rc # 0 THEN Finish(s, x)
          ELSE LET s1 == [s EXCEPT !.reg = @ \cup {[id |-> x.regid, n |-> x.regname]},
+                                  !.pendreg = @ \ {[id |-> x.regid, n |-> x.regname]},
                                   !.cknow = @ \cup {[tit |-> 0, id |-> x.regid, n |-> x.regname]}]
               IN IF x.qos = 0 THEN Send(Finish(s1, x), x.pub)
                  ELSE Send(Advance(s1, x, QosPhase(x.qos), [side |-> "sn", p |-> x.pub, m |-> Mq0]), x.pub)
